@@ -219,60 +219,91 @@ Definition inf_branch (z : itv) (ls us inf_sign : Z) : itv :=
 Notation mulz := (mul_assign_z C so).
 Notation divz := (div_assign_z C so).
 
-(* mul_assign(x, y).  [fixed] = false is the code as it is; [fixed] = true differs ONLY in the branch
-   "xl < 0 < xu, yl < 0 < yu" (lines 838-865): when the second candidate product replaces the first
-   one, its open flag replaces the first one's too. *)
-Definition mul_assign_gen (fixed : bool) (z x y : itv) : itv :=
-  if check_empty_arg x || check_empty_arg y then assign_empty z
+(* The branch "xl < 0 < xu, yl < 0 < yu" of mul_assign (lines 838-865): two candidate products per
+   end; `to_lower = tmp;' / `upper() = tmp;' copy the VALUE of the second candidate only, the OPEN and
+   SPECIAL bits of the result stay those of the first candidate (to_info).  [fixed] = true takes the
+   bits of the second candidate too. *)
+Definition pick (fixed cond : bool) (first tmp : bnd) : bnd :=
+  if cond then (if fixed then tmp else set_val C first (bv tmp)) else first.
+
+Definition strad_tmpl (xu yl : bnd) : bnd :=
+  Boundary.mul_assign C so LOWER (mkB (czero C) false false) UPPER xu LOWER yl.
+Definition strad_tol (tl xl yu : bnd) : bnd := Boundary.mul_assign C so LOWER tl LOWER xl UPPER yu.
+Definition strad_tmpu (xu yu : bnd) : bnd :=
+  Boundary.mul_assign C so UPPER (mkB (czero C) false false) UPPER xu UPPER yu.
+Definition strad_tou (tu xl yl : bnd) : bnd := Boundary.mul_assign C so UPPER tu LOWER xl LOWER yl.
+
+Definition mul_straddle (fixed : bool) (tl tu xl xu yl yu : bnd) : itv :=
+  let tmpl := strad_tmpl xu yl in     (* tmp with tmp_info; its value is dirty when tmp is infinite *)
+  let tol := strad_tol tl xl yu in
+  let tmpu := strad_tmpu xu yu in
+  let tou := strad_tou tu xl yl in
+  mkI (pick fixed (gt LOWER tol LOWER tmpl) tol tmpl) (pick fixed (lt UPPER tou UPPER tmpu) tou tmpu).
+
+Definition same_flags (a b : bnd) : bool := Bool.eqb (bsp a) (bsp b) && Bool.eqb (bop a) (bop b).
+
+(* the second candidate replaces the first one and its bits differ: (lower end, upper end) *)
+Definition straddle_flag_loss (tl tu xl xu yl yu : bnd) : bool * bool :=
+  let tmpl := strad_tmpl xu yl in
+  let tol := strad_tol tl xl yu in
+  let tmpu := strad_tmpu xu yu in
+  let tou := strad_tou tu xl yl in
+  (gt LOWER tol LOWER tmpl && negb (same_flags tol tmpl),
+   lt UPPER tou UPPER tmpu && negb (same_flags tou tmpu)).
+
+(* mul_assign(x, y): the sign-case ladder.  The result of a branch is built by [k]: branch number
+   (0: an empty operand, 1-9 as in the table above the C++ function, 10-11 infinite operands)
+   and the interval. *)
+Definition mul_ladder (A : Type) (kempty : A) (kinf : Z -> Z -> Z -> A)
+           (k : Z -> (bnd -> bnd) -> (bnd -> bnd) -> A)
+           (kstrad : bnd -> bnd -> bnd -> bnd -> A) (x y : itv) : A :=
+  if check_empty_arg x || check_empty_arg y then kempty
   else
     let xls := sgn_b C LOWER (lower x) in
     let xus := if (xls >? 0)%Z then 1%Z else sgn_b C UPPER (upper x) in
     let yls := sgn_b C LOWER (lower y) in
     let yus := if (yls >? 0)%Z then 1%Z else sgn_b C UPPER (upper y) in
     let inf_sign := infinity_sign x in
-    if negb (inf_sign =? 0)%Z then inf_branch z yls yus inf_sign
+    if negb (inf_sign =? 0)%Z then kinf yls yus inf_sign
     else
       let inf_sign := infinity_sign y in
-      if negb (inf_sign =? 0)%Z then inf_branch z xls xus inf_sign
+      if negb (inf_sign =? 0)%Z then kinf xls xus inf_sign
       else
-        let z := info_clear z in
-        let tl := lower z in   (* to_lower with the LOWER bits of to_info *)
-        let tu := upper z in   (* upper() with the UPPER bits of to_info *)
         let xl := lower x in let xu := upper x in let yl := lower y in let yu := upper y in
         if (xls >=? 0)%Z then
           if (yls >=? 0)%Z then
-            mkI (mulz LOWER tl LOWER xl xls LOWER yl yls) (mulz UPPER tu UPPER xu xus UPPER yu yus)
+            k 1%Z (fun tl => mulz LOWER tl LOWER xl xls LOWER yl yls) (fun tu => mulz UPPER tu UPPER xu xus UPPER yu yus)
           else if (yus <=? 0)%Z then
-            mkI (mulz LOWER tl UPPER xu xus LOWER yl yls) (mulz UPPER tu LOWER xl xls UPPER yu yus)
+            k 2%Z (fun tl => mulz LOWER tl UPPER xu xus LOWER yl yls) (fun tu => mulz UPPER tu LOWER xl xls UPPER yu yus)
           else
-            mkI (mulz LOWER tl UPPER xu xus LOWER yl yls) (mulz UPPER tu UPPER xu xus UPPER yu yus)
+            k 3%Z (fun tl => mulz LOWER tl UPPER xu xus LOWER yl yls) (fun tu => mulz UPPER tu UPPER xu xus UPPER yu yus)
         else if (xus <=? 0)%Z then
           if (yls >=? 0)%Z then
-            mkI (mulz LOWER tl LOWER xl xls UPPER yu yus) (mulz UPPER tu UPPER xu xus LOWER yl yls)
+            k 4%Z (fun tl => mulz LOWER tl LOWER xl xls UPPER yu yus) (fun tu => mulz UPPER tu UPPER xu xus LOWER yl yls)
           else if (yus <=? 0)%Z then
-            mkI (mulz LOWER tl UPPER xu xus UPPER yu yus) (mulz UPPER tu LOWER xl xls LOWER yl yls)
+            k 5%Z (fun tl => mulz LOWER tl UPPER xu xus UPPER yu yus) (fun tu => mulz UPPER tu LOWER xl xls LOWER yl yls)
           else
-            mkI (mulz LOWER tl LOWER xl xls UPPER yu yus) (mulz UPPER tu LOWER xl xls LOWER yl yls)
+            k 6%Z (fun tl => mulz LOWER tl LOWER xl xls UPPER yu yus) (fun tu => mulz UPPER tu LOWER xl xls LOWER yl yls)
         else if (yls >=? 0)%Z then
-          mkI (mulz LOWER tl LOWER xl xls UPPER yu yus) (mulz UPPER tu UPPER xu xus UPPER yu yus)
+          k 7%Z (fun tl => mulz LOWER tl LOWER xl xls UPPER yu yus) (fun tu => mulz UPPER tu UPPER xu xus UPPER yu yus)
         else if (yus <=? 0)%Z then
-          mkI (mulz LOWER tl UPPER xu xus LOWER yl yls) (mulz UPPER tu LOWER xl xls LOWER yl yls)
+          k 8%Z (fun tl => mulz LOWER tl UPPER xu xus LOWER yl yls) (fun tu => mulz UPPER tu LOWER xl xls LOWER yl yls)
         else
           (* xl < 0 < xu, yl < 0 < yu *)
-          let tmp0 := mkB (czero C) false false in   (* tmp with tmp_info.clear(); its value is dirty *)
-          let tmpl := Boundary.mul_assign C so LOWER tmp0 UPPER xu LOWER yl in
-          let tol := Boundary.mul_assign C so LOWER tl LOWER xl UPPER yu in
-          let tol :=
-            if gt LOWER tol LOWER tmpl
-            then (if fixed then tmpl else set_val C tol (bv tmpl))   (* to_lower = tmp; *)
-            else tol in
-          let tmpu := Boundary.mul_assign C so UPPER tmp0 UPPER xu UPPER yu in
-          let tou := Boundary.mul_assign C so UPPER tu LOWER xl LOWER yl in
-          let tou :=
-            if lt UPPER tou UPPER tmpu
-            then (if fixed then tmpu else set_val C tou (bv tmpu))   (* upper() = tmp; *)
-            else tou in
-          mkI tol tou.
+          kstrad xl xu yl yu.
+
+Definition mul_assign_gen (fixed : bool) (z x y : itv) : itv :=
+  let z0 := info_clear z in
+  mul_ladder itv (assign_empty z) (inf_branch z)
+    (fun _ fl fu => mkI (fl (lower z0)) (fu (upper z0)))
+    (fun xl xu yl yu => mul_straddle fixed (lower z0) (upper z0) xl xu yl yu) x y.
+
+(* diagnostics used by the correspondence check: branch number and whether the defect is exercised *)
+Definition mul_diag (z x y : itv) : Z * (bool * bool) :=
+  let z0 := info_clear z in
+  mul_ladder (Z * (bool * bool)) (0%Z, (false, false)) (fun _ _ _ => (10%Z, (false, false)))
+    (fun n _ _ => (n, (false, false)))
+    (fun xl xu yl yu => (9%Z, straddle_flag_loss (lower z0) (upper z0) xl xu yl yu)) x y.
 
 Definition mul_assign := mul_assign_gen false.
 Definition mul_assign_fixed := mul_assign_gen true.
